@@ -364,6 +364,9 @@ Definition is_vector_child (ty : xstr) (n : xnode) : bool :=
 Definition original_guids_of (n : xnode) : list xstring :=
   map (opt_text []) (filter (fun c => is_element c && is_vector_child (B"String") c) (children n)).
 
+Definition original_guids_from_node (n : xnode) : option (list xstring) :=
+  opt_case (find_child (B"originalGuids") n) (fun og => Some (original_guids_of og)) None.
+
 (** the [points] child: fileOffset, recordCount and the prototype *)
 Definition prototype_records (proto_tag : xnode) : res (list record) :=
   map_res record_from_node (filter is_element (children proto_tag)).
@@ -394,8 +397,7 @@ Definition pointcloud_from_node (n : xnode) : res pointcloud :=
   do acq_start <- opt_date_time n (B"acquisitionStart");
   do acq_end <- opt_date_time n (B"acquisitionEnd");
   do transform <- opt_transform n (B"pose");
-  let original_guids :=
-    opt_case (find_child (B"originalGuids") n) (fun og => Some (original_guids_of og)) None in
+  let original_guids := original_guids_from_node n in
   do pts <- points_from_node n;
   let '(file_offset, records, prototype) := pts in
   do cb <- opt_node (find_child (B"cartesianBounds") n) cartesian_bounds_from_node;
